@@ -114,25 +114,40 @@ Definition rule_matches (r : rule) (name file : list N) : bool :=
   name_matches r name &&
   match fpat r with None => true | Some fp => globmatch (rewrite_neg fp) file end.
 
-Inductive outcome := Matched (i : nat) (k : bool) | NoRule | Panic.
+Inductive outcome := Matched (i : nat) (k : bool) | NoRule.
 
 Definition key4 (s : list N) : option (list N) := if (length s <? 4)%nat then None else Some (firstn 4 s).
 Definition key_eqb (a b : option (list N)) : bool :=
   match a, b with Some x, Some y => beq x y | _, _ => false end.
 
-Fixpoint find_rule (rs : list rule) (i : nat) (name file : list N) (strict_key : bool) : outcome :=
-  match rs with
-  | [] => NoRule
-  | r :: t =>
-      if (if strict_key then key_eqb (key4 (key_text r)) (key4 name) else true) && rule_matches r name file
-      then Matched i (keep r) else find_rule t (S i) name file strict_key
+(* SectionNameMatcher::key_hash: a rule goes into the hash table iff its first four key bytes are fixed: the key text has at
+   least four bytes and, for a wildcard pattern, none of them is a metacharacter *)
+Definition meta (c : N) : bool := (c =? STAR) || (c =? QM) || (c =? LB) || (c =? BS).
+Definition keyed (r : rule) : bool :=
+  match key4 (key_text r) with
+  | None => false
+  | Some k => match analyze (pat r) with Star | NonStar => negb (existsb meta k) | _ => true end
   end.
 
-(* SectionRules::from_rules panics (expect) if some key text is shorter than 4 bytes; lookup finds, among the rules
-   whose 4-byte key equals the name's first 4 bytes, the first inserted one that matches *)
+(* the first rule, from position i, that satisfies `sel` and matches *)
+Fixpoint find_rule (sel : rule -> bool) (rs : list rule) (i : nat) (name file : list N) : outcome :=
+  match rs with
+  | [] => NoRule
+  | r :: t => if sel r && rule_matches r name file then Matched i (keep r) else find_rule sel t (S i) name file
+  end.
+
+Definition first_of (a b : outcome) : outcome :=
+  match a, b with
+  | Matched i k, Matched j l => if (i <? j)%nat then Matched i k else Matched j l
+  | Matched i k, NoRule => Matched i k
+  | NoRule, o => o
+  end.
+
+(* SectionRules::lookup: among the keyed rules whose key equals the name's first four bytes the first inserted one that
+   matches (hash table), among the unkeyed rules the first that matches (linear list); of the two, the earlier rule *)
 Definition lookup (rs : list rule) (name file : list N) : outcome :=
-  if existsb (fun r => match key4 (key_text r) with None => true | Some _ => false end) rs then Panic
-  else match key4 name with None => NoRule | Some _ => find_rule rs 0 name file true end.
+  first_of (find_rule (fun r => keyed r && key_eqb (key4 (key_text r)) (key4 name)) rs 0 name file)
+           (find_rule (fun r => negb (keyed r)) rs 0 name file).
 
 (* the specification: first rule in script order whose pattern fnmatch-es the name *)
 Definition spec_matches (r : rule) (name file : list N) : bool :=
